@@ -41,6 +41,7 @@ const (
 	FaultNone   = 0
 	FaultBefore = 1 // fail without performing the call
 	FaultAfter  = 2 // perform the call, then report an error
+	FaultPanic  = 3 // the dependency panics (e.g. out of gas) without performing the call
 )
 
 var errInjected = errors.New("verif: injected dependency failure")
@@ -68,12 +69,22 @@ func (p *DepsProbe) fault() int {
 	return FaultNone
 }
 
+func (p *DepsProbe) maybePanic(f int, c *DepCall) {
+	if f == FaultPanic {
+		c.Err = "panic"
+		p.Calls = append(p.Calls, *c)
+		panic("verif: injected dependency panic (out of gas)")
+	}
+}
+
 func faultName(f int) string {
 	switch f {
 	case FaultBefore:
 		return "before"
 	case FaultAfter:
 		return "after"
+	case FaultPanic:
+		return "panic"
 	}
 	return ""
 }
@@ -97,6 +108,7 @@ func (p *DepsProbe) SendCoinsFromAccountToModule(ctx context.Context, senderAddr
 	} else {
 		c.Denom, c.Amount = "?", amt.String()
 	}
+	p.maybePanic(f, &c)
 	var err error
 	if f == FaultBefore {
 		err = errInjected
@@ -114,6 +126,7 @@ func (p *DepsProbe) SendCoinsFromAccountToModule(ctx context.Context, senderAddr
 func (p *DepsProbe) Burn(ctx sdk.Context, msg *ftftypes.MsgBurn) (*ftftypes.MsgBurnResponse, error) {
 	f := p.fault()
 	c := DepCall{Kind: "burn", From: msg.From, Denom: msg.Amount.Denom, Amount: msg.Amount.Amount.String(), Fault: faultName(f)}
+	p.maybePanic(f, &c)
 	var err error
 	var resp *ftftypes.MsgBurnResponse
 	if f == FaultBefore {
@@ -132,6 +145,7 @@ func (p *DepsProbe) Burn(ctx sdk.Context, msg *ftftypes.MsgBurn) (*ftftypes.MsgB
 func (p *DepsProbe) Mint(ctx sdk.Context, msg *ftftypes.MsgMint) (*ftftypes.MsgMintResponse, error) {
 	f := p.fault()
 	c := DepCall{Kind: "mint", From: msg.From, To: msg.Address, Denom: msg.Amount.Denom, Amount: msg.Amount.Amount.String(), Fault: faultName(f)}
+	p.maybePanic(f, &c)
 	var err error
 	var resp *ftftypes.MsgMintResponse
 	if f == FaultBefore {
@@ -337,6 +351,50 @@ func (w *World) Apply(a Action) Outcome {
 		write()
 	}
 	return o
+}
+
+// Simulate executes one transaction on a branch that is ALWAYS discarded, even
+// when the handler succeeds -- what CheckTx, gas simulation, or an earlier
+// message of a transaction whose later message fails amount to.
+func (w *World) Simulate(a Action) Outcome {
+	msg, derr := a.Decode()
+	if derr != nil {
+		return Outcome{Err: "decode: " + derr.Error(), DecodeErr: true}
+	}
+	w.Probe.reset(a.Fault)
+	w.Rec.Ops = nil
+	cctx, _ := w.ctx.WithEventManager(sdk.NewEventManager()).CacheContext()
+	resp, err, panicked, pv, stack := w.CallHandler(cctx, a.Type, msg)
+	o := Outcome{Deps: w.Probe.Calls, Writes: w.Rec.Ops}
+	w.Probe.reset(nil)
+	switch {
+	case panicked:
+		o.Panicked, o.PanicVal, o.Stack = true, pv, stack
+	case err != nil:
+		o.Err = err.Error()
+	default:
+		o.OK = true
+		o.Resp = resp
+		o.Events = cctx.EventManager().Events()
+	}
+	return o
+}
+
+// Digest renders everything observable about an outcome.
+func (o Outcome) Digest() string {
+	var sb strings.Builder
+	fmt.Fprintf(&sb, "%s|%s|%s|", o.Class(), o.Err, o.PanicVal)
+	if o.Resp != nil {
+		bz, _ := proto.Marshal(o.Resp)
+		sb.WriteString(hex.EncodeToString(bz))
+	}
+	for _, e := range o.Events {
+		sb.WriteString("|" + e.Type)
+		for _, at := range e.Attributes {
+			sb.WriteString("," + at.Key + "=" + at.Value)
+		}
+	}
+	return sb.String()
 }
 
 // DryRun executes f on a branch that is always discarded.
